@@ -4,6 +4,7 @@ import (
 	"bytes"
 	"encoding/json"
 	"fmt"
+	"github.com/brutella/hc/db"
 	"os"
 	"path/filepath"
 	"strconv"
@@ -452,7 +453,54 @@ func c20Run(c *fw.Ctx) {
 	}()
 	c20Histories(c)
 	c20StructureSweep(c)
+	if c.Shard == 1%c.NShards {
+		c20Provisioned(c)
+	}
 	<-done
+}
+
+// c20Provisioned: a storage that was not written by this build — the files of an accessory identity as an earlier
+// installation (or an administrator) left them, with a device id in lower case / with surrounding blanks removed, its
+// key pair and one controller pairing. A start on it keeps exactly that id and key pair, and the paired controller verifies.
+func c20Provisioned(c *fw.Ctx) {
+	for _, id := range []string{"1b:fe:2f:f0:53:6e", "1B:FE:2F:F0:53:6E", "Ab:Cd:Ef:01:23:45"} {
+		c.Eval(1)
+		cas := c20Case{Hist: []string{"provisioned:" + id}}
+		dir := filepath.Join(c.Scratch, fmt.Sprintf("c20p-%d", atomic.AddInt64(&bedSeq, 1)))
+		os.MkdirAll(dir, 0755)
+		acc := refctl.NewIdentity(id, "provisioned-accessory-"+id)
+		database, err := dbOpen(dir)
+		if err != nil {
+			c.Infra(err.Error())
+			return
+		}
+		os.WriteFile(filepath.Join(dir, "uuid"), []byte(id), 0644)
+		database.SaveEntity(db.NewEntity(id, acc.Pub, acc.Priv))
+		database.SaveEntity(dbEntity(idL))
+		b, err := newBed(c, bedOpt{Dir: dir})
+		if err != nil {
+			c.Infra("bed: " + err.Error())
+			os.RemoveAll(dir)
+			return
+		}
+		txt := b.W.T.VerifTxtRecords()
+		switch {
+		case txt["id"] != id:
+			c.Report("provisioned-identity/device-id", fmt.Sprintf("a start on a storage whose device id is %q advertises %q", id, txt["id"]), cas)
+		case !bytes.Equal(b.AccLTPK, acc.Pub):
+			c.Report("provisioned-identity/key", "a start on a provisioned storage replaced the accessory's long-term key", cas)
+		case txt["sf"] != "0":
+			c.Report("provisioned-identity/discoverable", "a provisioned storage with a controller pairing is advertised as unpaired", cas)
+		default:
+			if k, err := b.Dial(); err == nil {
+				if _, ec, err := refctl.PairVerify(k, idL, refctl.Seed32("c20prov"), acc.Pub); err != nil || ec != 0 {
+					c.Report("provisioned-identity/verify", fmt.Sprintf("the controller paired on the provisioned storage cannot verify against the stored accessory key: %v code %d", err, ec), cas)
+				}
+			}
+		}
+		c.Class("provisioned")
+		b.Close()
+	}
 }
 
 func c20Histories(c *fw.Ctx) {
@@ -532,7 +580,7 @@ func init() {
 	fw.Register(&fw.Check{
 		ID:    "C20",
 		Level: "model_checking",
-		Rule:  "(a) every history of length 3 (quick) / 4 (thorough) after an initial start over {restart with the same accessories, restart with changed values only, restart with an added accessory, restart with another setup code, real pair-setup of a new controller, remove a pairing, add a new pairing and add an existing pairing again through /pairings on a verified connection, application value changes} on one storage directory with the real transport; after EVERY event the advertised TXT records and the store are compared with the reference model: device id and long-term key constant (a stored controller still verifies against the original accessory key), pairings = model set, c# +1 exactly when the structure differs from the previous run, sf=1 ⇔ no controller pairing. plus a sweep over 240 structurally different accessory sets (restart same ⇒ c# unchanged, other ⇒ +1, again ⇒ unchanged). (b) ALL 10^8 eight-digit codes and all ≈12 million strings of length ≤9 over {0,9,a,-,space,non-ASCII digit}: ValidatePin accepts exactly the non-trivial eight-digit codes and formats XXX-XX-XXX; for all 10^8 codes (category 5, IP flag) and for all 256 categories × 16 flag sets × 7 setup ids × 7 boundary codes an independent base-36 decoder recovers code, category, flags and setup id from XHMURI. states = restart histories executed The alphabet also has the removal of a pairing that is not stored; the value-only restart gives a first value to a readable characteristic that had none; every history of length 3 over {restart same, restart with other values, pair-setup of a controller whose identifier is the empty string, remove pairing, restart after the files 'version' and 'configHash' were lost (configuration number then not judged)}; every history of length 2 over four symbols is repeated in storage directories named 'Lamp [1]', 'Bridge [attic' and 'a*b?'. Plus, in a subprocess built with a scheduling point before EVERY statement of hc's packages (textual insertion through go build -overlay): every interleaving with at most 1 (thorough 2) preemptions of pairs of operations on disjoint objects — and, where the property is about served requests, of pairs of handlers on two verified connections of one accessory touching different characteristics — each side must observe exactly what it observes when the two run one after the other (module-level mutable state is what makes them differ).",
+		Rule:  "(a) every history of length 3 (quick) / 4 (thorough) after an initial start over {restart with the same accessories, restart with changed values only, restart with an added accessory, restart with another setup code, real pair-setup of a new controller, remove a pairing, add a new pairing and add an existing pairing again through /pairings on a verified connection, application value changes} on one storage directory with the real transport; after EVERY event the advertised TXT records and the store are compared with the reference model: device id and long-term key constant (a stored controller still verifies against the original accessory key), pairings = model set, c# +1 exactly when the structure differs from the previous run, sf=1 ⇔ no controller pairing. plus a sweep over 240 structurally different accessory sets (restart same ⇒ c# unchanged, other ⇒ +1, again ⇒ unchanged). (b) ALL 10^8 eight-digit codes and all ≈12 million strings of length ≤9 over {0,9,a,-,space,non-ASCII digit}: ValidatePin accepts exactly the non-trivial eight-digit codes and formats XXX-XX-XXX; for all 10^8 codes (category 5, IP flag) and for all 256 categories × 16 flag sets × 7 setup ids × 7 boundary codes an independent base-36 decoder recovers code, category, flags and setup id from XHMURI. states = restart histories executed The alphabet also has the removal of a pairing that is not stored; the value-only restart gives a first value to a readable characteristic that had none; every history of length 3 over {restart same, restart with other values, pair-setup of a controller whose identifier is the empty string, remove pairing, restart after the files 'version' and 'configHash' were lost (configuration number then not judged)}; a start on storages provisioned elsewhere (device id in lower, upper and mixed case with its key pair and one pairing) keeps id and key and lets the paired controller verify; every history of length 2 over four symbols is repeated in storage directories named 'Lamp [1]', 'Bridge [attic' and 'a*b?'. Plus, in a subprocess built with a scheduling point before EVERY statement of hc's packages (textual insertion through go build -overlay): every interleaving with at most 1 (thorough 2) preemptions of pairs of operations on disjoint objects — and, where the property is about served requests, of pairs of handlers on two verified connections of one accessory touching different characteristics — each side must observe exactly what it observes when the two run one after the other (module-level mutable state is what makes them differ).",
 		Run:   c20Run,
 		Replay: func(c *fw.Ctx, raw json.RawMessage) {
 			var cc c20CodeCase
@@ -548,6 +596,10 @@ func init() {
 			}
 			var cas c20Case
 			json.Unmarshal(raw, &cas)
+			if len(cas.Hist) == 1 && strings.HasPrefix(cas.Hist[0], "provisioned:") {
+				c20Provisioned(c)
+				return
+			}
 			c20Exec(c, cas.Hist)
 		},
 		Budget: func(t string) time.Duration {
